@@ -366,6 +366,14 @@ func SafetyScenario(t *Tape) *Scenario {
 			// for the next height while the library is still at the old one)
 			sc.TPBAlt = true
 			sc.TPB2From = sc.Start + 1
+			if t.Chance(SScen, 1, 2) {
+				// ... together with the dynamic block time extension, an often idle chain and a
+				// slow Reset: the window 'ledger already at the next height, library still at
+				// the old one, the primary's timer fires with an empty pool' is then met often
+				sc.MaxTPB = sc.TPB * time.Duration(pick(t, SScen, 1, 2, 3))
+				sc.TxRate = int(t.Draw(SScen, 2))
+				sc.ResetDelay = pick(t, SScen, int64(sc.TPB)*3, int64(sc.TPB)/2, int64(sc.TPB)*3)
+			}
 		}
 	}
 	if t.Chance(SScen, 1, 6) {
